@@ -24,7 +24,7 @@ _MIX = {}
 
 # string ids: a precomposed accent, and labels that are NOT in Unicode normal form C (decomposed accent, OHM SIGN, ANGSTROM SIGN):
 # text is data, nothing may normalise it
-_STR_NAMES = ["a", "b", "c", "\u00e9", "e\u0301", "\u2126", "\u212b", "C:\\d", '"q"', "o'k", "k", "l", "m", "n", "o", "p", "q", "r", "s", "t", "u", "v",
+_STR_NAMES = ["a", "C:\\d", '"q"', "\u00e9", "e\u0301", "\u2126", "\u212b", "o'k", "b", "c", "k", "l", "m", "n", "o", "p", "q", "r", "s", "t", "u", "v",
               "w", "x", "y", "z"]
 
 
@@ -584,6 +584,8 @@ class Impl:
         G = self.G(src)
         kind, target = int(kind), int(target)
         d, en = self.FILE_DELIMS[int(delim)], self.ENCS[int(enc)]
+        if any(d in str(n) for n in G._node):
+            d = "," if not any("," in str(n) for n in G._node) else ";"       # a delimiter must not occur inside a label
         wr = _el.write_interactions if kind else _el.write_snapshots
         rd = _el.read_interactions if kind else _el.read_snapshots
         nt = int if self.ids == "int" else (str if self.ids == "dstr" else None)
